@@ -436,6 +436,9 @@ static int pad_pkcs2(bn_t m, size_t *p_len, size_t m_len, size_t k_len,
 	bn_null(t);
 
 	RLC_TRY {
+		if (mask == NULL) {
+			RLC_THROW(ERR_NO_MEMORY);
+		}
 		bn_new(t);
 
 		switch (operation) {
